@@ -1,10 +1,11 @@
 /-
 Props/C07.lean — pkg_summary entries round-trip: generate→parse and canonical
 parse→generate.  Property theorems only; helper lemmas live in Lemmas/.
-Name tables, printed form, history independence, type invariant, and the full
-print→parse round trip (`C07_parse_print`, via the C08 refinement theorem).
+Name tables, printed form, history independence, type invariant, and BOTH round trips:
+print→parse (`C07_parse_print`) and canonical parse→print (`C07_print_parse_canonical`),
+via the C08 refinement theorem.
 -/
-import PkgsrcVerif.Lemmas.SummaryRoundtrip
+import PkgsrcVerif.Lemmas.SummaryCanonical
 import PkgsrcVerif.Props.C08
 open M L
 
@@ -67,6 +68,19 @@ theorem C07_parse_print (s : Summary) (hw : WellTyped s) (hc : s.isCompleted = t
   obtain ⟨s1, h1, e1⟩ := spec_parse_print s hw hc hr hi
   obtain ⟨s2, h2, e2⟩ := (C08_model_is_spec s.print).2.2 s1 h1
   exact ⟨s2, h2, fun v => (e2 v).trans (e1 v)⟩
+
+/-- **The parse→generate direction**: printing a parsed canonical entry reproduces its text byte
+    for byte.  Canonical = '\n'-terminated lines without '\r', every line `VAR=value` with a
+    known variable, variables in the fixed pkg_summary order (only multi-line variables repeat),
+    integers in canonical decimal form. -/
+theorem C07_print_parse_canonical (t : Bytes) (hcan : S.canonical t = true) (s : Summary)
+    (hp : Summary.parse t = .ok s) : s.print = t := by
+  obtain ⟨s', hs', he⟩ := (C08_model_is_spec t).2.1 s hp
+  rw [C07_history_independent s s' he]
+  exact spec_print_parse t hcan s' hs'
+
+/-- non-vacuity: a canonical three-line text (a multi-line variable twice, a negative size) -/
+example : S.canonical (asciiBytes "DEPENDS=a\nDEPENDS=b\nSIZE_PKG=-3\n") = true := by decide +kernel
 
 /-- the non-empty-list hypothesis is needed: an empty line list prints nothing, so it reads
     back as "unset" -/
